@@ -92,6 +92,8 @@ def run(prop, tier, seed, replay=None):
         meta = json.load(open(os.path.join(replay, "meta.json")))
         if meta["seed"] == "exh":
             jobs = [("exhreplay", meta["exh_seed"], meta["exh"], None)]
+        elif meta["seed"] == "net":
+            jobs = [("net", meta.get("net_seed", seed), meta.get("events", 6), None)]
         else:
             jobs = [(meta["seed"], meta["history"] + 1, meta.get("events", 70), meta["history"])]
     elif tier == "quick":
@@ -103,8 +105,34 @@ def run(prop, tier, seed, replay=None):
         # exhaustive small-scope exploration of the real table (K forced to 2): (per-mille of transitions logged, states expanded)
         jobs.append(("exh", seed, (40, 250) if tier == "quick" else (250, 0), None))
 
+    if not replay or (jobs and jobs[0][0] == "net"):
+        pass
+    if not replay:
+        # the routing tables of several real Servers talking to each other (srv -mode net): one trace per node
+        jobs.append(("net", seed, 6 if tier == "quick" else 48, None))
+
     def one(job):
         s, n, events, only = job
+        if s == "net":
+            sb = vlib.go_build("srv")
+            base = os.path.join(wd, "trace-net.ndjson")
+            rc, so, se = vlib.run_driver(sb, ["-mode", "net", "-seed", n, "-n", events, "-events", 40, "-out", base], timeout=3000)
+            if rc != 0:
+                raise vlib.Inconclusive("network driver failed (rc=%s): %s" % (rc, (se or "")[-2000:]))
+            outs = sorted(f for f in os.listdir(wd) if f.startswith("trace-net.ndjson.rt"))
+            merged = os.path.join(wd, "trace-netrt.ndjson")
+            lines, segbase = [], 0
+            for f in outs:           # concatenate the per-node traces, renumbering segments so that they stay distinct
+                ls = vlib.read_trace(os.path.join(wd, f))
+                mx = 0
+                for l in ls:
+                    sg = vlib.seg_of(l)
+                    mx = max(mx, sg)
+                    lines.append(l.replace('"seg":%d' % sg, '"seg":%d' % (segbase + sg), 1))
+                segbase += mx + 1
+            vlib.write_lines(merged, lines)
+            tv = vlib.validate_trace("Trace_RoutingTable", ("Trace_RoutingTable.cfg", "Trace_RoutingTable_relaxed.cfg"), merged, INV_PROPS, timeout=3000)
+            return "net", merged, dict(histories=segbase, events=len(lines)), tv, events
         if s == "exhreplay":
             out = os.path.join(wd, "trace-exhreplay.ndjson")
             rc, so, se = vlib.run_driver(binary, ["-seed", n, "-exhnosec=%s" % ("true" if events["nosec"] else "false"), "-exhpath", events["path"],
@@ -137,7 +165,7 @@ def run(prop, tier, seed, replay=None):
         results = list(ex.map(one, jobs))
     events_total = hist = deviations = answers = 0
     driver_errors = []
-    base = [r for r in results if r[0] != "exh" and r[3] is not None]
+    base = [r for r in results if r[0] not in ("exh", "net") and r[3] is not None]
     if not replay and base:
         st_ = vlib.binding_selftest("Trace_RoutingTable", ("Trace_RoutingTable.cfg", "Trace_RoutingTable_relaxed.cfg"), base[0][1], corrupt(prop), INV_PROPS)
         cov["binding_selftest"] = st_
@@ -186,6 +214,8 @@ def run(prop, tier, seed, replay=None):
                 continue
             segl = [x for x in lines if vlib.seg_of(x) == f["seg"]]
             meta = dict(property=prop, invariant=f["name"], seed=s, history=f["seg"], events=nev, line=f["line"][:2000])
+            if s == "net":
+                meta["net_seed"] = seed
             if s == "exh" and segl:
                 h0 = json.loads(segl[0])
                 meta.update(exh_seed=seed if not replay else json.load(open(os.path.join(replay, "meta.json"))).get("exh_seed", seed),
